@@ -132,7 +132,10 @@ func (d *c09Dict) infos(ais []peer.AddrInfo) string {
 	}
 	return vfList(it)
 }
-func c09Kad(id kb.ID) string { return new(big.Int).SetBytes(id).String() }
+// c09Kad: the leading 60 bits of a Kademlia identifier.  They order the peers of a
+// case exactly as the full 256 bits do unless two identifiers share them (2^-60);
+// Coq parses numerals below 2^62 much faster than larger ones.
+func c09Kad(id kb.ID) string { return new(big.Int).Rsh(new(big.Int).SetBytes(id[:8]), 4).String() }
 
 func (d *c09Dict) request(m *pb.Message) string {
 	return fmt.Sprintf("(Q (%d) %s %s (%d) %s %s %s)", int32(m.Type), d.bstr(m.Key), c09Kad(kb.ConvertKey(string(m.Key))),
